@@ -191,6 +191,10 @@ Example nv_expand_classes :
   c01_fails w_expand_k1 (mrun w_expand_k1) = [(4, 1)] /\ c01_fails w_expand_k3 (mrun w_expand_k3) = [(5, 3)]
   /\ c01_fails w_expand_k4 (mrun w_expand_k4) = [(5, 4)].
 Proof. exact expand_classes_l. Qed.
+(** GrafeoDB::delete_node detaches the node first (109e5bf): refuted for the pre-repair transcription, holds now *)
+Example nv_db_delete_node :
+  snapshot_ok w_db_delete (mrun_pre w_db_delete) = false /\ snapshot_ok w_db_delete (mrun w_db_delete) = true.
+Proof. split; [exact (proj1 db_delete_pre_refuted_l)|exact (proj1 (proj2 db_delete_pre_refuted_l))]. Qed.
 (** a later starter: the reader's snapshot (epoch 0) precedes the writer's begin (epoch 1) *)
 Example nv_later_starter :
   let st := final [CreateNode 9 [0] []; Begin 1; Begin 2; Commit 2; Begin 0; CreateNode 0 [0] []] in
